@@ -467,8 +467,26 @@ impl std::ops::Mul<i32> for Glue {
 }
 
 impl Glue {
+    /// A zero stretch or shrink carries no order of infinity (TeX.2021.1239).
+    fn without_orders_of_zeros(mut self) -> Self {
+        if self.stretch.is_zero() {
+            self.stretch_order = GlueOrder::Normal;
+        }
+        if self.shrink.is_zero() {
+            self.shrink_order = GlueOrder::Normal;
+        }
+        self
+    }
     /// TeX.2021.1239
     pub fn wrapping_add(self, rhs: Glue) -> Self {
+        self.without_orders_of_zeros()
+            .wrapping_add_orders(rhs.without_orders_of_zeros())
+    }
+    pub fn checked_add(self, rhs: Glue) -> Option<Self> {
+        self.without_orders_of_zeros()
+            .checked_add_orders(rhs.without_orders_of_zeros())
+    }
+    fn wrapping_add_orders(self, rhs: Glue) -> Self {
         use std::cmp::Ordering::*;
         Glue {
             width: self.width.wrapping_add(rhs.width),
@@ -486,7 +504,7 @@ impl Glue {
             shrink_order: self.shrink_order.max(rhs.shrink_order),
         }
     }
-    pub fn checked_add(self, rhs: Glue) -> Option<Self> {
+    fn checked_add_orders(self, rhs: Glue) -> Option<Self> {
         use std::cmp::Ordering::*;
         Some(Glue {
             width: self.width.checked_add(rhs.width)?,
